@@ -298,6 +298,11 @@ impl<'a> Snippet<'a> {
         msg: &str,
         location: &Location,
     ) -> fmt::Result {
+        // The message may reflect input text (keys, values): neutralize control characters
+        // before it reaches the title, the label or the fallback output.
+        let msg = sanitize_terminal_message(msg);
+        let msg = msg.as_ref();
+
         if location == &Location::UNKNOWN {
             return write!(f, "{msg}");
         }
@@ -386,9 +391,10 @@ impl<'a> Snippet<'a> {
         };
 
         let loc_prefix = l10n.snippet_location_prefix(*location);
+        let title = format!("{}: {msg}", loc_prefix);
 
         let report = &[level
-            .primary_title(format!("{}: {msg}", loc_prefix))
+            .primary_title(sanitize_terminal_message(&title))
             .element(
                 AnnotateSnippet::source(&window_text)
                     .line_start(window_start_absolute_row)
@@ -443,6 +449,9 @@ fn fmt_snippet_window_with_mapping_or_fallback(
     if location == &Location::UNKNOWN {
         return Ok(());
     }
+
+    let msg = sanitize_terminal_message(msg);
+    let msg = msg.as_ref();
 
     // `Location` is 1-based and uses *character* columns (not byte offsets).
     let absolute_row = location.line as usize;
@@ -653,6 +662,19 @@ pub(crate) fn sanitize_terminal_snippet_preserve_len(s: String) -> String {
     match String::from_utf8(bytes) {
         Ok(out) => out,
         Err(e) => String::from_utf8_lossy(&e.into_bytes()).into_owned(),
+    }
+}
+
+/// Sanitize message text (titles, labels) for terminal/log display.
+///
+/// Messages can reflect input text (field names, duplicate keys, scalar values), so they get the
+/// same treatment as the snippet source: see [`sanitize_terminal_snippet_preserve_len`].
+/// Borrows when `text` is already clean.
+pub(crate) fn sanitize_terminal_message(text: &str) -> std::borrow::Cow<'_, str> {
+    if is_terminal_snippet_clean(text) {
+        std::borrow::Cow::Borrowed(text)
+    } else {
+        std::borrow::Cow::Owned(sanitize_terminal_snippet_preserve_len(text.to_owned()))
     }
 }
 
